@@ -334,6 +334,9 @@ def _shared(ctx):
     from . import C07
     from .common import Proxy, share
     share(ctx, 'C07', 'R6/C07.', ['R1.stored_bin'])
+    # the value accumulated is f * weight with THE weight of the point: a lazily evaluated weight
+    # must return the same number every time it is asked (shared with C01)
+    share(ctx, 'C01', 'R6/C01.', ['R2.'])
 
 
 def algebra_equal(a, b):
